@@ -4,10 +4,11 @@
      ext:<i>:<bpr>:<pre>:<elems>       exts:<i>:<bpr>:<j>          geti:<i>:<k>
      get:<i>:<idx>   view:<i>:<bytes>  copy:<i>   seti:<i>:<k>:<v>  setr:<i>:<k>:<elem>
      set:<i>:<idx>:v<z> | set:<i>:<idx>:q<j>      op:<i>:<fn>:<inplace>:<dtchg>
-     cat:<j>,<bpr>;<j>,<bpr>...        drop:<i>
+     cat:<j>,<bpr>;<j>,<bpr>...        drop:<i>   opq:<i>:<fn2>:<j>:<inplace>:<dtchg> (sequence operand)
    <elems> = '-' (empty list) or elements joined by '/', an element = rows joined by '.', 'e' = empty
    <idx>   = s,<a>,<b>,<c> ('n' = None) | l[,<k>...] | m[,<0|1>...]
-   <fn>    = add,<k> | mul,<k> | neg | lt,<k> | eq,<k>
+   <fn>    = add,<k> | mul,<k> | neg | lt,<k> | eq,<k> | or,<k> | and,<k> | xor,<k> | shl,<k> | shr,<k>
+   <fn2>   = add | sub | mul | lt | eq | or | and | xor
    Output: steps joined by ';', a step = <res>#<obs>; <res> = ok | el=<elem> | err:<enum>;
    <obs> = live sequences joined by '&', each <index>@<buffer number by first occurrence>=<elems>. *)
 let split c s = String.split_on_char c s
@@ -24,7 +25,12 @@ let index_of_string s = match split ',' s with
   | _ -> failwith "bad index"
 let fn_of_string s = match split ',' s with
   | ["add"; k] -> FAdd (z_of_string k) | ["mul"; k] -> FMul (z_of_string k) | ["neg"] -> FNeg
-  | ["lt"; k] -> FLt (z_of_string k) | ["eq"; k] -> FEq (z_of_string k) | _ -> failwith "bad fn"
+  | ["lt"; k] -> FLt (z_of_string k) | ["eq"; k] -> FEq (z_of_string k)
+  | ["or"; k] -> FOr (z_of_string k) | ["and"; k] -> FAnd (z_of_string k) | ["xor"; k] -> FXor (z_of_string k)
+  | ["shl"; k] -> FShl (z_of_string k) | ["shr"; k] -> FShr (z_of_string k) | _ -> failwith "bad fn"
+let fn2_of_string = function
+  | "add" -> BAdd | "sub" -> BSub | "mul" -> BMul | "lt" -> BLt | "eq" -> BEq
+  | "or" -> BOr | "and" -> BAnd | "xor" -> BXor | _ -> failwith "bad fn2"
 let op_of_string s = match split ':' s with
   | ["new"; by; bpr; pre; els] -> ONew (z_of_string by, z_of_string bpr, bool_of_string pre, elems_of_string els)
   | ["app"; i; bpr; cb; e] -> OAppend (nat i, z_of_string bpr, elem_of_string e, bool_of_string cb)
@@ -45,6 +51,7 @@ let op_of_string s = match split ':' s with
     OConcat (List.map (fun p -> match split ',' p with [j; b] -> (nat j, z_of_string b) | _ -> failwith "bad cat")
                (if js = "" then [] else split ';' js))
   | ["drop"; i] -> ODrop (nat i)
+  | ["opq"; i; g; j; ip; dc] -> OOpSeq (nat i, fn2_of_string g, nat j, bool_of_string ip, bool_of_string dc)
   | _ -> failwith ("bad op " ^ s)
 let string_of_err = function EIndex -> "Index" | EValue -> "Value" | EStopIteration -> "StopIteration" | EBadSeq -> "BadSeq"
 let string_of_result = function ROk -> "ok" | RElem e -> "el=" ^ string_of_elem e | RErr e -> "err:" ^ string_of_err e
